@@ -71,7 +71,7 @@ def split_top(body):
     return parts
 
 
-def validate_file(trace_path, spe, deviations, timeout=900):
+def validate_file(trace_path, spe, deviations, timeout=3600):
     wd = lib.fresh_spec_copy()
     shutil.copy(trace_path, os.path.join(wd, "trace.ndjson"))
     devs = "{" + ", ".join('"%s"' % d for d in sorted(deviations)) + "}"
@@ -250,11 +250,11 @@ def plan(pid, tier):
         return [(profs[0], 2, 120, 40), (profs[0], 3, 80, 40), (profs[0], 4, 60, 50), (profs[1], 2, 80, 40),
                 (profs[1], 3, 60, 60), (profs[0], 2, 60, 80)]
     out = []
-    for rep in range(4):
+    for rep in range(8):
         for spe in (2, 3, 4):
-            out.append((profs[0], spe, 400, 50))
-            out.append((profs[1], spe, 300, 60))
-        out.append((profs[0], 2, 150, 120))
+            out.append((profs[0], spe, 200, 50))
+            out.append((profs[1], spe, 150, 60))
+        out.append((profs[0], 2, 80, 110))
     return out
 
 
